@@ -21,5 +21,6 @@ with open("/verif/seeded/INDEX.md", "w") as f:
     f.write("| id | property | change | needs | confirmed | caught by (quick tier) | first violation line |\n|---|---|---|---|---|---|---|\n")
     for r in rows:
         f.write("| " + " | ".join(str(x) for x in r) + " |\n")
-    f.write("\n%d changes, %d confirmed, %d caught by their property's quick check.\n" % (len(rows), sum(1 for r in rows if r[4] == "yes"), sum(1 for r in rows if r[5] != "MISSED")))
+    own = sum(1 for r in rows if r[1] in r[5].split(", "))
+    f.write("\n%d changes, %d confirmed, %d caught by at least one quick check, %d of them by the check of the property they were written against (the others are aliasing / incremental-update faults that the property's own oracle does not cover and C06/C07 do).\n" % (len(rows), sum(1 for r in rows if r[4] == "yes"), sum(1 for r in rows if r[5] != "MISSED"), own))
 print(open("/verif/seeded/INDEX.md").read()[-300:])
